@@ -62,6 +62,19 @@ class ReqSim(Sim):
                 raise
         setattr(n, name, wrapped)
 
+    def _cancel_request(self):
+        """cancel the request task; record at which await of the race coroutine it is suspended (a scheduling fact)"""
+        import linecache
+        self.cancel_pos = None
+        co = self.req.get_coro()
+        while co is not None and hasattr(co, 'cr_frame'):
+            fr = co.cr_frame
+            if fr is not None and fr.f_code.co_name == '_create_peer_connection_race':
+                src = ''.join(linecache.getline(fr.f_code.co_filename, fr.f_lineno + k) for k in range(0, 2))
+                self.cancel_pos = 'wait' if 'asyncio.wait(' in src else 'winner-path'
+            co = getattr(co, 'cr_await', None)
+        self.req.cancel()
+
     def _hop(self, fn, hops):
         """run fn after `hops` further loop iterations at the same virtual instant"""
         if hops <= 0:
@@ -171,7 +184,8 @@ class ReqSim(Sim):
             self.loop.stop()
         self.req.add_done_callback(done)
         if sc.get('cancel') is not None:
-            self.loop.call_later(sc['cancel'], self.req.cancel)
+            # cancel_exact: at that very instant, `cancel_skew` loop iterations after the timers of that instant
+            self.loop.call_later(sc['cancel'], self._hop, self._cancel_request, sc.get('cancel_skew', 0) if sc.get('cancel_exact') else 0)
         self.loop.run_until_idle(until=self.t0 + 400.0)
         self.settle()
         r = self.result()          # the quiescent moment right after the request returned / raised
@@ -220,6 +234,7 @@ class ReqSim(Sim):
             'inits': inits,
             'orphans': len(live_tasks),
             'attempts': dict(self.attempts),
+            'cancel_pos': getattr(self, 'cancel_pos', None),
             # per peer-connection object: its ConnectionStateChangedEvent stream, registry membership, socket (C10's observables)
             'streams': [{'incoming': bool(getattr(rec.conn, 'incoming', False)), 'reported': list(rec.reported),
                          'registered': self.in_registry(rec.conn),
